@@ -293,8 +293,12 @@ def call_impl(fn, *a, timeout=20, **kw):
     # a kernel loop forever must not stall the whole check
     if _TIMEOUTS >= 3:
         timeout = 1
+    # the limit counts CPU time of this process (ITIMER_PROF), so a loaded machine cannot turn a slow call into a
+    # reported non-termination; a wall-clock alarm ten times as long is the backstop for a call that blocks
     old = signal.signal(signal.SIGALRM, _alarm)
-    signal.alarm(timeout)
+    oldp = signal.signal(signal.SIGPROF, _alarm)
+    signal.setitimer(signal.ITIMER_PROF, timeout)
+    signal.alarm(timeout * 10)
     try:
         v = fn(*a, **kw)
         return ("ok", v)
@@ -308,8 +312,10 @@ def call_impl(fn, *a, timeout=20, **kw):
     except Exception as e:  # noqa
         return (f"other:{type(e).__name__}", str(e)[:200])
     finally:
+        signal.setitimer(signal.ITIMER_PROF, 0)
         signal.alarm(0)
         signal.signal(signal.SIGALRM, old)
+        signal.signal(signal.SIGPROF, oldp)
 
 
 def import_impl():
